@@ -132,9 +132,6 @@ func evalC05Matrix(c *Ctx, cs C05Matrix) (msg string) {
 	if len(D) != rows {
 		return fmt.Sprintf("offset vector has %d entries for %d rows: table=%v", len(D), rows, tab)
 	}
-	if len(T) != len(C) {
-		return fmt.Sprintf("value vector (%d) and check vector (%d) differ in length: table=%v", len(T), len(C), tab)
-	}
 	look := func(i, j int) int {
 		k := D[i] + j
 		if k < 0 || k >= len(C) || C[k] != i {
